@@ -159,12 +159,14 @@ class C07(Prop):
         mtrue = np.array([1, -1, 0, 0.2, 0.1, 0.3])
         mtrue = mtrue / np.linalg.norm(mtrue)
         a = np.asarray(inv.station_angles(st, 'P'))
-        data = {'PPolarity': {'Stations': st, 'Measured': np.matrix(np.sign(a.dot(mtrue))).T, 'Error': np.matrix(0.3 * np.ones((n, 1)))}}
+        data = {'PPolarity': {'Stations': st, 'Measured': np.matrix(np.sign(a.dot(mtrue))).T, 'Error': np.matrix((0.3 if dc else 0.6) * np.ones((n, 1)))}}
         a_pol, err_pol, ipp = inv.polarity_matrix(data)
 
         def forward(mts):
             return inv.ForwardTask(mts, a_pol, err_pol, False, False, False, False, False, False, False, False, ipp, return_zero=True)()
-        f = lambda m: np.vstack([m[0] * m[0], m[1] * m[1], m[2] * m[2], m[0] * m[1], m[3] * m[3], m[4] * m[5]])
+        # second moments of the six-vector and the size of the isotropic part (sensitive to the source-type prior)
+        f = lambda m: np.vstack([m[0] * m[0], m[1] * m[1], m[2] * m[2], m[0] * m[1], m[3] * m[3], m[4] * m[5],
+                                 np.abs(m[0] + m[1] + m[2]) / math.sqrt(3)])
         np.random.seed(seed)
         nref = 400000
         b = base.BaseAlgorithm(number_samples=nref, dc=dc)
@@ -190,6 +192,8 @@ class C07(Prop):
         bm = np.array([G[:, i * L:(i + 1) * L].mean(1) for i in range(nb)])
         se = bm.std(0, ddof=1) / math.sqrt(nb)
         z = (est - ref) / np.sqrt(se ** 2 + refvar / ess)
+        if dc:
+            z = z[:6]            # a double-couple has no isotropic part: the seventh statistic is identically zero
         return [float(v) for v in z], float(out['acceptance_rate']), float(ess)
 
     def _driver_run(self, dc, seed):
@@ -238,7 +242,7 @@ class C07(Prop):
                 'accepted': int(out['accepted'])}
 
     def extra(self, rng, tier):
-        runs = [(True, 3000, 11), (False, 4000, 12)] if tier == 'quick' else [(True, 20000, 11), (False, 20000, 12), (False, 20000, 13)]
+        runs = [(True, 3000, 11), (False, 4000, 12)] if tier == 'quick' else [(True, 20000, 11), (False, 40000, 12), (False, 40000, 13)]
         cov, fails = {'posterior_runs': [], 'driver_runs': []}, []
         for dc, seed in ([(False, 5)] if tier == 'quick' else [(False, 5), (True, 6), (False, 7)]):
             d = self._driver_run(dc, seed)
@@ -253,7 +257,7 @@ class C07(Prop):
         for dc, n, seed in runs:
             z, rate, ess = self._posterior_run(dc, n, seed)
             cov['posterior_runs'].append({'dc': dc, 'chain_length': n, 'seed': seed, 'z': z, 'acceptance_rate': rate, 'reference_ess': ess})
-            if max(abs(v) for v in z) > 6.0:
+            if max(abs(v) for v in z) > (6.0 if tier == 'quick' else 5.0):
                 fails.append(Failure('property', {'kind': 'stat-posterior', 'dc': dc, 'chain_length': n, 'seed': seed},
                                      'expectations over the recorded chain differ from likelihood-weighted random sampling by %s combined '
                                      'Monte Carlo standard errors (acceptance rate %.3f)' % (['%.1f' % v for v in z], rate), key='posterior'))
